@@ -171,6 +171,8 @@ let reset () =
   Hashtbl.reset tags; Hashtbl.reset dumps;
   Hashtbl.replace tags "(I 0)" zero_val; Hashtbl.replace dumps 0 "(I 0)"
 let val_of_dump (d : String.t) : val0 =
+  (* numerals travel as digit lists through the extracted arithmetic: a 100000-digit integer would take minutes *)
+  if String.length d > 6000 then raise (Unsupported "dump longer than 6000 characters");
   match Hashtbl.find_opt tags d with
   | Some v -> v
   | None ->
